@@ -66,6 +66,11 @@ def _method_of(raw):
     return None
 
 
+def _wake(f):
+    if not f.done():
+        f.set_result(None)
+
+
 class _HostEnd:
     """State of one subscriber."""
 
@@ -91,7 +96,9 @@ class _HostEnd:
         if self.bus_name in self.bus.stalled:
             return False
         return self.cursor < len(self.bus.log) and \
-            self.bus.world.now() >= self.visible_at[self.cursor]
+            self.bus.world.now() >= self.visible_at[self.cursor] - 2e-6
+        # (2e-6: the loop fires timers up to its clock resolution early, as
+        # asyncio does)
 
     def _take(self):
         i = self.cursor
@@ -129,9 +136,8 @@ class SimPubSubManager(_HostEnd, socketio.PubSubManager):
             k.block(lambda: self.cursor < len(self.bus.log) and
                     self.bus_name not in self.bus.stalled, None,
                     label='bus.listen')
-            dt = self.visible_at[self.cursor] - k.now
-            if dt > 0:
-                k.sleep(dt)
+            if self.visible_at[self.cursor] > k.now:
+                k.sleep_until(self.visible_at[self.cursor])
             if self._ready():
                 yield self._take()
 
@@ -156,8 +162,15 @@ class AsyncSimPubSubManager(_HostEnd, AsyncPubSubManager):
             while not self._ready():
                 if self.cursor < len(self.bus.log) and \
                         self.bus_name not in self.bus.stalled:
-                    dt = self.visible_at[self.cursor] - loop.time()
-                    await asyncio.sleep(max(dt, 0.0))
+                    # absolute deadline: time() + (t - time()) may round
+                    # to one ulp short of t and spin
+                    f = loop.create_future()
+                    h = loop.call_at(self.visible_at[self.cursor],
+                                     _wake, f)
+                    try:
+                        await f
+                    finally:
+                        h.cancel()
                 else:
                     f = loop.create_future()
                     self.bus.waiters.append(f)
